@@ -271,6 +271,11 @@ class C08(PropCheck):
         rng.shuffle(files)
         for f in (files[:60] if tier == "quick" else files):
             out.append({"k": "file", "path": f})
+        for where in ("finally", "except", "nested_finally", "for_else"):
+            for is_async in (False, True):
+                for nconst in (0, 3, 260):
+                    for tgt in (None, "loc", "loc.attr", "loc[a]"):
+                        out.append({"k": "placed", "where": where, "async": is_async, "nconst": nconst, "target": tgt})
         return out
 
     def run_real(self, case):
@@ -281,6 +286,8 @@ class C08(PropCheck):
             return self.run_file(case["path"])
         if case["k"] == "dyn":
             return self.run_dyn(case)
+        if case["k"] == "placed":
+            return self.run_placed(case)
         src, with_line = layout(random.Random(case["lseed"]), [tuple(x) for x in case["items"]], case["async"], case.get("glob", False), case.get("big", False),
                                 cell=case.get("cell"), maybe=case.get("maybe", False))
         ns: Dict[str, Any] = {}
@@ -337,6 +344,50 @@ class C08(PropCheck):
             if real != ctx.varname:
                 self._probs.append(f"analyze_with_blocks handed describe_assignment_target another instruction: {ctx.varname!r} vs {real!r}")
         return "§".join(outs)
+
+    def run_placed(self, case):
+        """The with statement in a position where the compiler duplicates or re-arranges it (the body of a `finally:` is compiled
+        twice, the second copy reached only while an exception propagates and, for `async with`, with an inline CLEANUP_THROW before
+        END_SEND), optionally in a function whose first None constant has an index above 255 (EXTENDED_ARG before LOAD_CONST None):
+        EVERY copy must be found, with the line of the with keyword and the source's `as` target, and without any warning."""
+        from stackscope.lowlevel import analyze_with_blocks
+
+        kw = "async with" if case["async"] else "with"
+        tgt = case["target"]
+        item = "cm" + (f" as {tgt}" if tgt else "")
+        pre = ['    """doc"""'] + [f"    pad = {1000 + i}" for i in range(case["nconst"])] + ["    loc = G = pad = None"]
+        where = case["where"]
+        if where == "finally":
+            body, wl, copies = ["    try:", "        pad = 1", "    finally:", f"        {kw} {item}:", "            pad = 2"], 3, 2
+        elif where == "except":
+            body, wl, copies = ["    try:", "        pad = 1", "    except ValueError:", f"        {kw} {item}:", "            pad = 2"], 3, 1
+        elif where == "nested_finally":
+            body, wl, copies = ["    try:", "        try:", "            pad = 1", "        finally:", "            pad = 3", "    finally:",
+                                f"        {kw} {item}:", "            pad = 2"], 6, 2
+        else:
+            body, wl, copies = ["    for pad in a:", "        pad = 1", "    else:", f"        {kw} {item}:", "            pad = 2"], 3, 1
+        src = "\n".join([("async def fn(a, b, c):" if case["async"] else "def fn(a, b, c):")] + pre + body) + "\n"
+        with_line = 1 + len(pre) + wl + 1
+        code = compile(src, "<c08placed>", "exec")
+        fn_code = [c for c in code.co_consts if isinstance(c, types.CodeType)][0]
+        with warnings.catch_warnings(record=True) as w:
+            warnings.simplefilter("always")
+            try:
+                info = analyze_with_blocks(fn_code)
+            except Exception as e:
+                self._probs.append(f"analyze_with_blocks raised {type(e).__name__}: {e} on a `{kw}` in `{where}` ({case['nconst']} constants first)")
+                return "raised"
+        ctxs = list(info.values())
+        if len(ctxs) != copies:
+            self._probs.append(f"`{kw}` in `{where}`: {len(ctxs)} with-blocks found, the compiler emitted {copies} copies")
+        for c in ctxs:
+            if c.start_line != with_line:
+                self._probs.append(f"`{kw}` in `{where}`: start_line {c.start_line}, the with keyword is on line {with_line}")
+            if (c.varname is None) != (tgt is None) or (tgt is not None and norm_ast(c.varname) != norm_ast(tgt)):
+                self._probs.append(f"`{kw}` in `{where}` ({case['nconst']} constants first): varname {c.varname!r}, the source says {tgt!r}")
+        if w:
+            self._probs.append(f"warning {w[0].message}")
+        return f"placed copies={len(ctxs)}"
 
     def run_dyn(self, case):
         """Every context reported on a live frame of a generated program carries the `as` target its with item has in the
@@ -507,6 +558,8 @@ class C08(PropCheck):
             return json.dumps(case["items"])
         if case["k"] == "file" and isinstance(real, str) and not real.startswith("with-blocks=0"):
             return case["path"]
+        if case["k"] == "placed":
+            return json.dumps({k: v for k, v in case.items() if not k.startswith("_")}, sort_keys=True)
         if case["k"] == "dyn" and isinstance(real, str) and not real.startswith("contexts=0 "):
             return json.dumps({k: v for k, v in case.items() if not k.startswith("_")}, sort_keys=True)
         return None
